@@ -29,7 +29,7 @@ def c05a(ctx, tu):
                 for sat in (True, False):
                     for k in (0, 1, 2):
                         o = Oracle(calls=iter_calls("elem", {"trompeloeil::sequence_matcher::is_satisfied": sat}),
-                                   params={0: ("ptr", ("elem", "cur")) if is_m else ("ptr", ("elem", "other"))})
+                                   params={0: _h(fn, "cur") if is_m else _h(fn, "other")})
                         # every integral local visible at the loop entry holds the running position k
                         res, it = lm.step(o, {v: k for v in ints}, at="elem")
                         if is_m:
@@ -51,14 +51,14 @@ def c05a(ctx, tu):
             # a handle that is not in the list: 'not callable' once the end is reached, whatever was counted
             for k in (0, 1, 2):
                 o = Oracle(calls=iter_calls("end", {"trompeloeil::sequence_matcher::is_satisfied": True}),
-                           params={0: ("ptr", ("elem", "other"))})
+                           params={0: _h(fn, "other")})
                 res, it = lm.step(o, {v: k for v in ints}, at="end")
                 if res != ("return", MAXU) and bad is None:
                     bad = "a handle that is not in the list must be 'not callable' (all-ones) after the loop; code does %s" \
                           % describe(res, k)
             # the position counter starts at 0: interpret the code before the loop
             o = Oracle(calls=iter_calls("elem", {"trompeloeil::sequence_matcher::is_satisfied": True}),
-                       params={0: ("ptr", ("elem", "other"))}, any_member=True)
+                       params={0: _h(fn, "other")}, any_member=True)
             it = Interp(fn, o)
             r0 = it.run(stop_blocks={lm.entry})
             if bad is None and (r0 != ("stop", lm.entry) or not ints or any(it.env.get(v) not in (0, None) for v in ints)
@@ -95,6 +95,13 @@ def init_and_exit(fn, l):
 
 
 # ------------------------------------------------------------------------------- C05.b
+def _h(fn, which):
+    """the value of the handle parameter: sequence_type's members take the handle by pointer or by reference"""
+    ps = fn.rec.get("params") or []
+    t = (ps[0]["t"] if ps else "").rstrip()
+    return ("elem", which) if t.endswith("&") else ("ptr", ("elem", which))
+
+
 def c05b(ctx, tu):
     n = 0
     for fn in tu.find("trompeloeil::sequence_matchers::order"):
@@ -143,6 +150,33 @@ def c05b(ctx, tu):
         n += 1
         try:
             bad = None
+            uses_order = any(e["e"] == "call" and (qe(e) or "").endswith("::order") for b, e in fn.events())
+            if not uses_order:
+                # no maximum is formed: the handles are asked one by one - callable iff no handle is blocked
+                if fn.rec["clsq"].endswith("<0>"):
+                    v = table.eval_return_expr(fn, Oracle())
+                    ctx.ob("C05.b", "trompeloeil::sequence_handler<0>::can_be_called", bool(v) is True, pattern=fn.pat,
+                           unit=tu.name, inst=fn.q, detail="" if v else "an unsequenced expectation can always be called")
+                    continue
+                l = loop_of(fn, "trompeloeil::sequence_matcher::cost")
+                if l is None:
+                    raise Unknown("neither order() nor a walk over the handles' costs")
+                lm = LoopModel(fn, l)
+                for c in (0, 1, 7, MAXU):
+                    o = Oracle(calls=iter_calls("elem", {"trompeloeil::sequence_matcher::cost": c}), any_member=True)
+                    res, it = lm.step(o, at="elem")
+                    want = ("return", False) if c == MAXU else ("stop", lm.entry)
+                    if (res[0], bool(res[1]) if res[0] == "return" else res[1]) != want and bad is None:
+                        bad = "a handle of cost %s makes the walk %s" % ("all-ones" if c == MAXU else c, res)
+                if bad is None:
+                    o = Oracle(calls=iter_calls("end", {"trompeloeil::sequence_matcher::cost": 1}), any_member=True)
+                    res, it = lm.step(o, at="end")
+                    if res[0] != "return" or not res[1]:
+                        bad = "after the last handle the result is %s" % (res,)
+                ctx.ob("C05.b", "trompeloeil::sequence_handler::can_be_called", bad is None, pattern=fn.pat, unit=tu.name,
+                       inst=fn.q, detail="" if bad is None else "can_be_called() is false exactly when some named sequence "
+                       "blocks the expectation: " + bad)
+                continue
             for v in (0, 1, 7, MAXU):
                 o = Oracle(calls={"trompeloeil::sequence_handler::order": v, "trompeloeil::sequence_matchers::order": v})
                 r = table.eval_return_expr(fn, o)
@@ -183,7 +217,7 @@ def c05c(ctx, tu):
                     # matched step is passed
                     "trompeloeil::sequence_matcher::is_satisfied": sat,
                     "trompeloeil::sequence_matcher::is_optional": opt}),
-                    params={0: ("ptr", ("elem", "cur")) if front_is_m else ("ptr", ("elem", "other"))},
+                    params={0: _h(fn, "cur") if front_is_m else _h(fn, "other")},
                     members={"trompeloeil::sequence_type::matchers": ("obj", "matchers")}).descend_into(tu)
 
             for front_is_m in (True, False):
@@ -219,7 +253,10 @@ def _recv(t):
 def c05e(ctx, tu):
     for fn in tu.need(A["seq_add_last"]):
         evs = [e for b, e in fn.events() if e["e"] == "call" and qe(e) in (A["push_back"], A["push_front"])]
-        ok = len(evs) == 1 and qe(evs[0]) == A["push_back"] and evs[0].get("args") == [["param", 0, fn.rec["params"][0]["n"]]]
+        pn = fn.rec["params"][0]["n"]
+        byref = fn.rec["params"][0]["t"].rstrip().endswith("&")
+        want_arg = ["u", "&", ["param", 0, pn]] if byref else ["param", 0, pn]
+        ok = len(evs) == 1 and qe(evs[0]) == A["push_back"] and [lib.strip_casts(a) for a in (evs[0].get("args") or [])] == [want_arg]
         ctx.ob("C05.e", A["seq_add_last"], ok, pattern=fn.pat, unit=tu.name,
                detail="" if ok else "registration must append the handle to the sequence's pending list")
     for fn in tu.need("trompeloeil::sequence_matcher::sequence_matcher"):
@@ -230,7 +267,7 @@ def c05e(ctx, tu):
             if e["e"] == "decl" and "unique_lock<" in e.get("type", ""):
                 order.append("lock")
             if e["e"] == "call" and qe(e) == A["seq_add_last"]:
-                order.append("add" if e.get("args") == [["this"]] else "add?")
+                order.append("add" if e.get("args") in ([["this"]], [["u", "*", ["this"]]]) else "add?")
         ok = order == ["lock", "add"]
         if order == ["add"]:
             # the lock may be taken by add_last itself, around its insertion
@@ -303,7 +340,7 @@ def c05f(ctx, tu):
                 for same in (True, False):
                     o = Oracle(calls=dict(ITER, **{"trompeloeil::list::empty": empty,
                                                    "trompeloeil::list::begin": ("iter", "b")}),
-                               params={0: ("ptr", ("elem", "cur")) if same else ("ptr", ("elem", "other"))},
+                               params={0: _h(fn, "cur") if same else _h(fn, "other")},
                                members={"trompeloeil::sequence_type::matchers": ("obj", "matchers")})
                     r = table.eval_return_expr(fn, o)
                     want = (not empty) and same
